@@ -14,18 +14,20 @@
    Yield by g           : Y1 lock g | Y2 status check, c:=caller (nil => unlock, error) | Y3 lock c (check)
                           Y4 status:=Suspended; caller:=nil | Y5 unlock g | Y6 unlock c
                           Y7 send c.ch | Y8 recv g.ch
-   end by g             : E0 c:=caller | E1 lock g | E2 lock c (checks) | E3 close g.ch
-                          E4 status:=Dead; caller:=nil | E5 pending __close handlers (Lua!; discarded if killed)
-                          E6 closeErr:=.. | E6r ReleaseBytes | E7 send c.ch | (E8 ReleaseBytes, old order only)
-                          E9 unlock c | E10 unlock g
+   end by g             : E0 c:=caller; caller:=nil (action 20) | HANDLER PHASE: the pending __close handlers run as
+                          ordinary Lua code of the still-running thread (pc Lua with hctx set; discarded if the
+                          thread was killed; Yield takes its nil-caller error path) | LHDone: phase over
+                          E1 lock g | E2 lock c (checks) | E3 close g.ch | E4 status:=Dead; caller:=nil
+                          E6 closeErr:=.. | E6r ReleaseBytes | E7 send c.ch | E9 unlock c | E10 unlock g
+                          (regression variants only: E5 handlers inside the locked section with X1..X3/XY1 their
+                           coroutine operations; E8 ReleaseBytes after the send)
    Start body           : S0 recv g.ch, then Lua; deferred recover => end
 
    Unbuffered channels: send and receive are ONE rendezvous action [LRdv]
    (enabled when the sender is at its send and the receiver at its receive).
-   [cfg] selects the code as it stands ([current]: ReleaseBytes (E6r, action 27) BEFORE the send,
-   as repaired by commit eafa506; __close handlers run inside end may perform coroutine
-   operations), the order before that fix ([old_order]: E8 ReleaseBytes after the send), or the
-   protocol in which handlers run by end do no coroutine operation ([repaired]).  No proofs in this file. *)
+   [cfg] selects the code as it stands ([current]: handlers before the locked section; ReleaseBytes
+   (E6r, action 27) before the send) or a regression variant ([old_handlers]: handlers at E5 holding
+   both mutexes; [old_order]: additionally E8 ReleaseBytes after the send).  No proofs in this file. *)
 From Coq Require Import List Bool Arith.
 Import ListNotations.
 
@@ -90,7 +92,7 @@ Definition set_cerr (x : thread) (b : bool) : thread :=
 (* end detaches the caller and remembers it (and the pending message) for the handler phase *)
 Definition set_h (x : thread) (h : option (nat * msg)) : thread :=
   mkTh (status x) None (mux x) (closed x) (closeErr x) h.
-(* the handler phase is over *)
+(* the end frame's locals are dead once the thread is marked Dead *)
 Definition clr_h (x : thread) : thread :=
   mkTh (status x) (caller x) (mux x) (closed x) (closeErr x) None.
 
@@ -149,13 +151,13 @@ Definition step (cf : cfg) (s : state) (a : action) : option state :=
   | Lua, LHDone m =>
       match hctx (th s g) with
       | Some (c, m0) => if is_term m0 && negb (is_term m) then None
-                        else Some (setpc (setth s g (clr_h (th s g))) g (E1 c m))
+                        else Some (setpc s g (E1 c m))
       | None => None
       end
   (* a termination received from a callee while running handlers unwinds to end's recover *)
   | E0 _, LHDone m =>
       match hctx (th s g) with
-      | Some (c, _) => if is_term m then Some (setpc (setth s g (clr_h (th s g))) g (E1 c MTerm)) else None
+      | Some (c, _) => if is_term m then Some (setpc s g (E1 c MTerm)) else None
       | None => None
       end
   (* ---- Resume / Close *)
@@ -214,7 +216,7 @@ Definition step (cf : cfg) (s : state) (a : action) : option state :=
       if st_eqb (status (th s g)) OK && st_eqb (status (th s c)) OK then lock s g c (E3 c m)
       else if is_free s c then Some (setpc s g Panicked) else None
   | E3 c m, LStep cd => if negb (cd =? 23) then None else Some (setpc (setth s g (set_closed (th s g))) g (E4 c m))
-  | E4 c m, LStep cd => if negb (cd =? 24) then None else Some (setpc (setth s g (set_sc (th s g) Dead None)) g (if handlers_locked cf then E5 c m else E6 c m))
+  | E4 c m, LStep cd => if negb (cd =? 24) then None else Some (setpc (setth s g (clr_h (set_sc (th s g) Dead None))) g (if handlers_locked cf then E5 c m else E6 c m))
   | E5 c m, LStep cd => if negb (cd =? 25) then None else Some (setpc s g (E6 c m))
   (* since fix 8db1ed8 a thread killed by a context termination (m = MTerm) discards its pending
      handlers (closeStack.truncate(0)) instead of running them: no Lua code runs in E5 then *)
